@@ -94,9 +94,14 @@ PROPS["C16"] = dict(T(12000, 40, 600000, 900),
     note=NOTE + " Value equality of encode/decode is input-driven (generated strings and trees); the stream-position and rejection clauses are what fragmentation and interleaving decide.",
     rule="Scenario: frame codec x format codec x generated values x malformed-frame injection x fragmentation from the tape.")
 
+PROPS["C15"] = dict(T(12000, 40, 600000, 900),
+    text="Real xhttp.ServerCodec + xhttp.Handler on a sync or queued channel; a peer sends 1-5 requests (GET/POST/PUT, short and long targets, HTTP/1.0 and 1.1, Connection close/keep-alive/absent, bodies absent / Content-Length / chunked) pipelined or one by one in tape-chosen pieces under read fragmentation; the http.Handler runs a seeded program per request (reads none/half/all of the body; explicit Content-Length, chunked or neither; status; 0-3 writes of sizes around the 2048-byte buffer; explicit Flush never / after the first write / at the end). Response bytes race with the background sender and with the codec's close decision. Oracle: handler invocations equal the requests to be served (method, target, id header, body) in order, once each; net/http.ReadResponse reads back exactly one response per request with the handler's status, header and body; the connection is closed iff a request asked for it or a response is not self-delimiting, and never with unflushed response bytes.",
+    note=NOTE + " Requests after the first connection-closing exchange are not expected to be served.",
+    rule="Scenario: request sequence x handler programs x pipelining x fragmentation from the tape.")
+
 NOT_APPLICABLE = {
     "C03": "Pipeline order and routing are pure functions of the build program and the event: the handler list is immutable after build and traversed by whichever goroutine delivers the event; no schedule, clock, fault or I/O behaviour enters. Simulation would only be relabelled input generation (DESIGN.md section 3, C03).",
     "C19": "pool.Pool adds no concurrency, time or I/O of its own: shard choice is arithmetic on sizes, mutual exclusion is entirely sync.Pool's, which the simulator has to replace by a stub, so simulated concurrent use would exercise the stub and not the repository (DESIGN.md section 3, C19).",
 }
-for _p in ["C15"]:
+for _p in []:
     NOT_APPLICABLE.setdefault(_p, "check under construction in this session (planned as applicable, DESIGN.md section 3); not claimed until it runs clean")
